@@ -461,7 +461,10 @@ func sortCheck(n int, less func(i, j int) bool) {
 
 var pools = map[*sync.Pool][]interface{}{}
 
+var poolMu sync.Mutex
+
 func PoolGet(p *sync.Pool) interface{} {
+	poolMu.Lock()
 	items := pools[p]
 	k := vfPick(len(items) + 1)
 	if k < len(items) {
@@ -473,8 +476,10 @@ func PoolGet(p *sync.Pool) interface{} {
 			}
 		}
 		pools[p] = rest
+		poolMu.Unlock()
 		return x
 	}
+	poolMu.Unlock()
 	if p.New != nil {
 		return p.New()
 	}
@@ -485,5 +490,174 @@ func PoolPut(p *sync.Pool, x interface{}) {
 	if x == nil {
 		return
 	}
+	poolMu.Lock()
 	pools[p] = append(pools[p], x)
+	poolMu.Unlock()
+}
+
+func SliceIsSorted(x interface{}, less func(i, j int) bool) bool {
+	n := vfLenOf(x)
+	for i := n - 1; i > 0; i-- {
+		if less(i, i-1) {
+			return false
+		}
+	}
+	return true
+}
+
+func IsSorted(data sortIface) bool {
+	n := data.Len()
+	for i := n - 1; i > 0; i-- {
+		if data.Less(i, i-1) {
+			return false
+		}
+	}
+	return true
+}
+
+func StringsAreSorted(x []string) bool {
+	for i := len(x) - 1; i > 0; i-- {
+		if x[i] < x[i-1] {
+			return false
+		}
+	}
+	return true
+}
+
+func Ints(x []int) {
+	for i := 1; i < len(x); i++ {
+		for j := i; j > 0 && x[j] < x[j-1]; j-- {
+			x[j], x[j-1] = x[j-1], x[j]
+		}
+	}
+}
+
+func IntsAreSorted(x []int) bool {
+	for i := len(x) - 1; i > 0; i-- {
+		if x[i] < x[i-1] {
+			return false
+		}
+	}
+	return true
+}
+
+// ---------------------------------------------------------------------------
+// sync.Map: an association list per map object behind one model mutex (the
+// real type synchronises internally; the mutex makes that visible to the
+// race analysis and gives the scheduler its switching points).
+
+type smEntry struct{ k, v interface{} }
+
+var syncMaps = map[*sync.Map][]smEntry{}
+var syncMapMu sync.Mutex
+
+func MapLoad(m *sync.Map, key interface{}) (interface{}, bool) {
+	syncMapMu.Lock()
+	defer syncMapMu.Unlock()
+	for _, e := range syncMaps[m] {
+		if e.k == key {
+			return e.v, true
+		}
+	}
+	return nil, false
+}
+
+func MapStore(m *sync.Map, key, value interface{}) {
+	syncMapMu.Lock()
+	defer syncMapMu.Unlock()
+	es := syncMaps[m]
+	for i, e := range es {
+		if e.k == key {
+			ne := make([]smEntry, len(es))
+			copy(ne, es)
+			ne[i].v = value
+			syncMaps[m] = ne
+			return
+		}
+	}
+	syncMaps[m] = append(es[:len(es):len(es)], smEntry{key, value})
+}
+
+func MapLoadOrStore(m *sync.Map, key, value interface{}) (interface{}, bool) {
+	syncMapMu.Lock()
+	defer syncMapMu.Unlock()
+	es := syncMaps[m]
+	for _, e := range es {
+		if e.k == key {
+			return e.v, true
+		}
+	}
+	syncMaps[m] = append(es[:len(es):len(es)], smEntry{key, value})
+	return value, false
+}
+
+func MapLoadAndDelete(m *sync.Map, key interface{}) (interface{}, bool) {
+	syncMapMu.Lock()
+	defer syncMapMu.Unlock()
+	es := syncMaps[m]
+	for i, e := range es {
+		if e.k == key {
+			ne := make([]smEntry, 0, len(es))
+			ne = append(ne, es[:i]...)
+			ne = append(ne, es[i+1:]...)
+			syncMaps[m] = ne
+			return e.v, true
+		}
+	}
+	return nil, false
+}
+
+func MapDelete(m *sync.Map, key interface{}) { MapLoadAndDelete(m, key) }
+
+func MapSwap(m *sync.Map, key, value interface{}) (interface{}, bool) {
+	syncMapMu.Lock()
+	defer syncMapMu.Unlock()
+	es := syncMaps[m]
+	for i, e := range es {
+		if e.k == key {
+			ne := make([]smEntry, len(es))
+			copy(ne, es)
+			ne[i].v = value
+			syncMaps[m] = ne
+			return e.v, true
+		}
+	}
+	syncMaps[m] = append(es[:len(es):len(es)], smEntry{key, value})
+	return nil, false
+}
+
+func MapCompareAndSwap(m *sync.Map, key, old, new interface{}) bool {
+	syncMapMu.Lock()
+	defer syncMapMu.Unlock()
+	es := syncMaps[m]
+	for i, e := range es {
+		if e.k == key {
+			if e.v != old {
+				return false
+			}
+			ne := make([]smEntry, len(es))
+			copy(ne, es)
+			ne[i].v = new
+			syncMaps[m] = ne
+			return true
+		}
+	}
+	return false
+}
+
+func MapClear(m *sync.Map) {
+	syncMapMu.Lock()
+	defer syncMapMu.Unlock()
+	syncMaps[m] = nil
+}
+
+func MapRange(m *sync.Map, f func(key, value interface{}) bool) {
+	syncMapMu.Lock()
+	es := syncMaps[m]
+	syncMapMu.Unlock()
+	for _, e := range es {
+		if !f(e.k, e.v) {
+			return
+		}
+	}
 }
